@@ -99,9 +99,49 @@ struct Runner<'a, 'b> {
     w: World,
     trace: Vec<serde_json::Value>,
     batch_calls: u64,
+    /// back-pressure mode: the event channel holds one event and is not drained after every call
+    hold: bool,
+    /// per call that noticed time-outs while in back-pressure mode: the holders that must be reported
+    owed: Vec<BTreeSet<PeerId>>,
 }
 
 impl Runner<'_, '_> {
+    /// back-pressure mode: collect every event the fetcher still owes (its senders wait for room in the channel)
+    /// and compare with the time-outs noticed, call by call
+    fn settle_owed(&mut self) {
+        if !self.hold {
+            return;
+        }
+        let mut got: Vec<BTreeSet<PeerId>> = vec![];
+        for _ in 0..(self.owed.len() + 4) {
+            self.rt.block_on(async {
+                for _ in 0..4 {
+                    tokio::task::yield_now().await;
+                }
+            });
+            let mut any = false;
+            while let Ok(ev) = self.rx.try_recv() {
+                any = true;
+                if let NetworkEvent::FailedToFetchHolders(h) = ev {
+                    got.push(h.into_iter().collect());
+                }
+            }
+            if !any {
+                break;
+            }
+        }
+        self.cx.count_n("back-pressure:reports-owed", self.owed.len() as u64);
+        let owed = std::mem::take(&mut self.owed);
+        for (i, want) in owed.iter().enumerate() {
+            self.cx.eval();
+            let ok = got.get(i).map(|g| want.is_subset(g)).unwrap_or(false) || got.iter().any(|g| want.is_subset(g)) && got.len() >= owed.len();
+            if !ok {
+                self.viol("timed-out-holder-not-reported:event-channel-was-full", format!("{} calls noticed timed-out fetches while the event channel was full; {} reports arrived once it was drained (report {} of {:?} is missing)", owed.len(), got.len(), i, want.len()));
+                break;
+            }
+        }
+    }
+
     fn viol(&mut self, sig: &str, detail: String) {
         let n = self.trace.len();
         let tail: Vec<_> = self.trace[n.saturating_sub(25)..].to_vec();
@@ -156,11 +196,14 @@ impl Runner<'_, '_> {
             }
         });
         let mut failed_holders: BTreeSet<PeerId> = BTreeSet::new();
-        while let Ok(ev) = self.rx.try_recv() {
-            if let NetworkEvent::FailedToFetchHolders(h) = ev {
-                failed_holders.extend(h);
+        if !self.hold {
+            while let Ok(ev) = self.rx.try_recv() {
+                if let NetworkEvent::FailedToFetchHolders(h) = ev {
+                    failed_holders.extend(h);
+                }
             }
         }
+        let mut owed_now: BTreeSet<PeerId> = BTreeSet::new();
         let post = self.f.snapshot();
         let (post_in, post_pend) = snap_sets(&post);
         self.cx.eval();
@@ -284,13 +327,18 @@ impl Runner<'_, '_> {
                 if post_in.get(e) == Some(h) && !reissued {
                     viols.push(("timed-out-fetch-still-in-flight", format!("fetch of k{} from holder aged {}s is still in flight after a scheduling call", self.w.idx(&e.0), self.w.now_s - t0)));
                 }
-                if !failed_holders.contains(h) {
+                if self.hold {
+                    owed_now.insert(*h);
+                } else if !failed_holders.contains(h) {
                     viols.push(("timed-out-holder-not-reported", format!("holder of the timed-out fetch of k{} was not reported", self.w.idx(&e.0))));
                 }
                 if post_pend.iter().any(|p| p.2 == *h) {
                     viols.push(("timed-out-holder-entries-still-queued", format!("queued entries of the timed-out holder of k{} remain", self.w.idx(&e.0))));
                 }
             }
+        }
+        if !owed_now.is_empty() {
+            self.owed.push(owed_now);
         }
         for (sig, d) in viols {
             self.viol(sig, d);
@@ -341,7 +389,7 @@ impl Check for C08 {
         tier.pick(800, 10_000)
     }
     fn required_counters(&self, _tier: Tier) -> Vec<&'static str> {
-        vec!["timeouts-observed", "progress-phases", "batch-steps", "single-key-ads", "multi-key-ads", "driver:advertisements", "driver:refusals-when-full", "driver:fetch-events-after-full", "driver:periodic-lists-with-one-missing-record"]
+        vec!["timeouts-observed", "progress-phases", "batch-steps", "single-key-ads", "multi-key-ads", "driver:advertisements", "driver:refusals-when-full", "driver:fetch-events-after-full", "driver:periodic-lists-with-one-missing-record", "back-pressure-traces", "back-pressure:reports-owed"]
     }
     fn run_case(&self, cx: &mut Cx) {
         // every 6th case drives the fetcher through its real callers in the SwarmDriver (Replicate handler,
@@ -364,10 +412,16 @@ impl Check for C08 {
             })
             .collect();
         let _enter = rt.enter();
-        let (f, rx) = VerifFetcher::new(me);
+        // 15% of the traces run under back-pressure: an event channel of capacity 1 that the harness does not drain
+        // after every call (the real event loop may be busy); no time-out report may get lost
+        let hold = cx.rng.gen_bool(0.15);
+        let (f, rx) = if hold { VerifFetcher::with_event_capacity(me, 1) } else { VerifFetcher::new(me) };
+        if hold {
+            cx.count("back-pressure-traces");
+        }
         let w = World { me, holders, keys, dist, versions, store: HashMap::new(), range: None, farthest_latest: None, farthest_min: None, now_s: 0, inflight: HashMap::new() };
         let _ = w.me;
-        let mut r = Runner { cx, rt, f, rx, w, trace: vec![], batch_calls: 0 };
+        let mut r = Runner { cx, rt, f, rx, w, trace: vec![], batch_calls: 0, hold, owed: vec![] };
 
         // pre-populate the store with some keys
         for k in 0..nk {
@@ -460,6 +514,7 @@ impl Check for C08 {
             r.cx.count_n("batch-steps", r.batch_calls);
         }
 
+        r.settle_owed();
         // ---- bounded progress phase
         // responsive holder H re-advertises every round all in-range, not-stored keys; every issued
         // fetch to any holder completes within the round; 5 s pass per round.
@@ -513,6 +568,45 @@ impl Check for C08 {
             }
         }
 
+        // ---- another version of exactly the farthest held record is not "farther" than it: once the node is full it
+        //      must still be fetched when a responsive holder keeps advertising it
+        if let Some(b) = r.w.farthest_min {
+            let kstar = (0..nk).find(|k| r.w.dist[*k] == b);
+            let held = kstar.and_then(|k| r.w.store.get(&r.w.keys[k]).map(|(_, t)| (k, t.clone())));
+            let other_version = held.as_ref().and_then(|(k, t)| r.w.versions[*k].iter().find(|v| *v != t).cloned().map(|v| (*k, v)));
+            let in_range = kstar.map(|k| r.w.range.map(|rg| r.w.dist[k] < rg).unwrap_or(true)).unwrap_or(false);
+            if let (Some((k, t2)), true) = (other_version, in_range) {
+                let key = r.w.keys[k].clone();
+                let queued = r.f.snapshot().to_be_fetched.len();
+                let bound = queued.div_ceil(MAX) + 8;
+                r.cx.count("progress:new-version-of-farthest-record");
+                let mut fetched = false;
+                'rounds: for _ in 0..bound {
+                    let mut issued = r.step(Call::Ad { holder: h, keys: vec![(k, t2.clone())] });
+                    let mut guard = 0;
+                    while let Some((_holder, fk)) = issued.pop() {
+                        guard += 1;
+                        if guard > 2000 {
+                            break;
+                        }
+                        if fk == key {
+                            fetched = true;
+                            break 'rounds;
+                        }
+                        let ki = r.w.idx(&fk);
+                        let ty = r.w.inflight_sorted().into_iter().find(|e| e.0 == fk).map(|e| e.1).unwrap_or_else(|| r.w.versions[ki][0].clone());
+                        issued.extend(r.step(Call::Put { key: ki, ty }));
+                    }
+                    r.step(Call::Age(5));
+                }
+                r.cx.eval();
+                if !fetched {
+                    r.viol("no-bounded-progress:new-version-of-the-farthest-held-record", format!("k{k} is the farthest held record of a full node; another version of it, advertised every round by a responsive holder, was not fetched within {bound} rounds"));
+                }
+            }
+        }
+
+        r.settle_owed();
         let trace_hash = h64(&serde_json::to_string(&r.trace).unwrap_or_default());
         if r.batch_calls > 0 && saw_timeout_step && saw_update {
             r.cx.nontrivial(&trace_hash);
